@@ -345,6 +345,8 @@ def run(chk):
     for sc in swept:
         if sc['ops'][0]['op'] == 'apply_batch':
             sc['want_aproto'] = True
+        else:
+            sc['want_ffail'] = True
     obs = par.run_all(swept)
     # apply pools: the queue / result / settle events of the crash runs are steps of Mpire.ApplyProto (with `die` for the victim) —
     # outside the dequeue / worker_init windows, which are the known findings
@@ -364,6 +366,9 @@ def run(chk):
                       in_user_function=(o.get('injected') or {}).get('in_user_function'))
     chk.notes['crash_sweep'] = {'bases': len(bases), 'crash_points_tried': len(swept), 'outcome_classes': classes, 'exhaustive_per_base': True}
     graceful_tie(chk, drv, swept, obs)
+    # the death handler as one of the parties that report a failing call (slot, flag, stores, what the caller fetches)
+    from harness.checks.C04 import ffail_tie
+    ffail_tie(chk, swept, obs)
     idle = idle_scenarios(rng, 60 if chk.tier == 'quick' else 800)
     iobs = par.run_all(idle)
     for sc, o in zip(idle, iobs):
